@@ -158,17 +158,17 @@ pub fn run(ctx: &Ctx) -> i32 {
         let c = &structured[idx as usize];
         check_case(ctx, "structured", idx, &c.label, &c.cfg, &c.entries);
     });
-    let n = ctx.n(4000, 50_000);
+    let n = ctx.n(4000, 250_000);
     ctx.par("random", n, true, |idx, rng| {
         let (entries, cfg, shape) = gen::gen_file_case(rng, 60_000);
         check_case(ctx, "random", idx, &format!("random/{:?}", shape), &cfg, &entries);
     });
-    let n = ctx.n(5000, 60_000);
+    let n = ctx.n(5000, 300_000);
     ctx.par("boundary", n, true, |idx, rng| {
         let (entries, cfg) = gen_boundary_case(rng);
         check_case(ctx, "boundary", idx, "entry sizes around B", &cfg, &entries);
     });
-    let n = ctx.n(2500, 30_000);
+    let n = ctx.n(2500, 120_000);
     ctx.par("deep", n, true, |idx, rng| {
         let levels = *rng.pick(&[2u8, 3, 3, 4, 5]);
         let cnt = rng.range(20, 200);
@@ -181,7 +181,7 @@ pub fn run(ctx: &Ctx) -> i32 {
         }
         check_case(ctx, "deep", idx, "deep", &cfg, &entries);
     });
-    let n = ctx.n(600, 10_000);
+    let n = ctx.n(600, 40_000);
     ctx.par("sorter-chunks", n, true, |idx, rng| sorter_chunks_case(ctx, idx, rng));
     if ctx.only.is_none() {
         ctx.obligation("sorter chunk files judged", ctx.counter("sorter_chunk_files_judged") > 0);
